@@ -17,7 +17,7 @@ def cfgs (o : Obs α) (n : String) : List Int :=
 def unionCfgs (xs : List (Obs α)) (n : String) : List Int := Py.sortedSet (xs.flatMap (fun o => cfgs o n))
 
 /-- chains of ensemble `e` (names `e|...`) present in a list of names -/
-def chainsOf (names : List String) (e : String) : List String := names.filter (fun m => (e ++ "|").isPrefixOf m)
+def chainsOf (names : List String) (e : String) : List String := names.filter (fun m => (e ++ "|").isPrefixOf m || m == e)
 
 /-- all chain names of the result -/
 def allChains (xs : List (Obs α)) : List String := newSampleNames xs
